@@ -57,6 +57,7 @@ type JobConfig struct {
 	SolverBin  string
 	SolverArgs []string
 	SMTLog     string
+	Only       []string // assertion-id prefixes that belong to this check (empty = all)
 }
 
 // Shared is the state shared by the workers of one job.
@@ -192,6 +193,7 @@ type Exec struct {
 	clockNext  *Int
 	ctxChildren map[*ctxObj][]*ctxObj
 	panicsLogged []string
+	reqCtx      map[*value]value
 }
 
 type recordedCall struct {
@@ -461,7 +463,24 @@ func (e *Exec) model() []InputRec {
 	return out
 }
 
+func (e *Exec) mine(id string) bool {
+	if len(e.sh.cfg.Only) == 0 {
+		return true
+	}
+	for _, p := range e.sh.cfg.Only {
+		if strings.HasPrefix(id, p) {
+			return true
+		}
+	}
+	return false
+}
+
 func (e *Exec) vAssert(c Bool, id string) {
+	if !e.mine(id) {
+		// an assertion of another property sharing this harness: not this
+		// check's business, and not assumed either
+		return
+	}
 	e.st.Asserts[id]++
 	if c.T == nil {
 		if !c.C {
@@ -655,6 +674,7 @@ func (e *Exec) runPath(prefix []int64) {
 	e.natives = map[string]value{}
 	e.faultSeq = 0
 	e.panicsLogged = nil
+	e.reqCtx = map[*value]value{}
 	e.initSched()
 	e.sol.Send("(push 1)")
 	defer func() {
